@@ -1,4 +1,5 @@
 """Anchors shared by several rule modules, located by shape (trait impls, foreign API use)."""
+import re
 from engine import AnchorLost
 from model import Super, PathSens, fn_of, trace, strace, is_place, site
 
@@ -184,6 +185,30 @@ def input_entry_delegators(facts, fmt):
     """Entry-point-shaped functions of `fmt` that only hand their arguments on to the entry point proper."""
     input_entry_points(facts)
     return _cache.get((id(facts), "input_entry_delegators:" + fmt), [])
+
+
+_PREFIX_ACC = {}
+
+
+def is_prefix_accessor(lib, cb):
+    """The look-ahead accessor of the detection input: a same-crate function of (input, size) that returns the first
+    bytes of the input as `io::Result<&[u8]>`, or as an `io::Result` of a small struct that carries that slice next to
+    other facts about it (`Prefix { bytes, complete }`)."""
+    if cb is None:
+        return False
+    key = (id(lib), cb.id)
+    if key in _PREFIX_ACC:
+        return _PREFIX_ACC[key]
+    rt = str(cb.raw.get("ret_ty", ""))
+    res = rt.startswith("std::result::Result<&[u8], std::io::Error>")
+    if not res and cb.nargs == 2 and cb.local_ty(2) == "usize":
+        m = re.match(r"^std::result::Result<([A-Za-z0-9_:]+)(<[^>]*>)?, std::io::Error>$", rt)
+        a = lib.adts.get(m.group(1)) if m else None
+        if a and a.get("kind") == "struct" and a.get("crate") == "xt":
+            fs = a["variants"][0]["fields"]
+            res = len(fs) <= 3 and sum(1 for f_ in fs if f_["ty"].replace("'", "").replace(" ", "").endswith("[u8]") and f_["ty"].startswith("&")) == 1
+    _PREFIX_ACC[key] = res
+    return res
 
 
 def trial_functions(facts):
